@@ -170,6 +170,43 @@ def native_traces(V, cov):
             V.add(f"native-trace:{pname}", "discharged", detail=f"{r['rows']} rows x {r['constraints']} constraints all zero; boundary assertions hold")
 
 
+_W = {}
+
+
+def _worker(args):
+    """one operation (all regimes) in a worker process: obligations as plain data"""
+    name, regimes = args
+    if not _W:
+        _W["meta"] = airq.get_meta()
+        _W["interp"] = opsum.make_interp()
+        _W["ex"] = c04_stack.extract(_W["meta"])
+    V = Verdict(PROP)
+    cov = dict(paths=0, queries=0, solver_time_s=0.0, candidates=[], native_rows=0)
+    t_w = time.time()
+    try:
+        for k in regimes:
+            check_op(_W["meta"], _W["interp"], _W["ex"], name, k, V, cov)
+        confirm(_W["meta"], _W["ex"], cov, V)
+    except Exception as e:  # engine trouble is inconclusive, never a verdict on miden-vm
+        V.add(f"{name}", "inconclusive", detail=f"{type(e).__name__}: {e}")
+    for o in V.obligations:
+        o["detail"] = None if o["detail"] is None else str(o["detail"])[:300]
+    if time.time() - t_w > 20:
+        log(f"[C03] slow operation {name}: {time.time()-t_w:.1f}s")
+    return V.obligations, V.violations, V.known_hit, {k: v for k, v in cov.items() if isinstance(v, (int, float))}
+
+
+def parallel_ops(names, regimes):
+    import multiprocessing as mp_
+    # build shared inputs once in the parent (engines, MIR dump) so that workers only read them
+    _W["meta"] = airq.get_meta()
+    _W["interp"] = opsum.make_interp()
+    _W["ex"] = c04_stack.extract(_W["meta"])
+    n = int(os.environ.get("VERIF_JOBS", "0")) or max(1, min(12, (os.cpu_count() or 2) - 2))
+    with mp_.get_context("fork").Pool(n) as pool:
+        return pool.map(_worker, [(nm, regimes) for nm in names], chunksize=1)
+
+
 def main():
     t0 = time.time()
     V = Verdict(PROP)
@@ -182,10 +219,15 @@ def main():
     only = [a for a in sys.argv[1:] if not a.startswith("-")]
     if only:
         names = [n for n in names if n in only]
-    for name in names:
-        for k in regimes:
-            check_op(meta, interp, ex, name, k, V, cov)
-    confirm(meta, ex, cov, V)
+    results = parallel_ops(names, regimes)
+    for obs, vio, known_hit, pc in results:
+        V.obligations += obs
+        V.violations += vio
+        V.known_hit += known_hit
+        V.inconclusive += [o["name"] for o in obs if o["status"] == "inconclusive"]
+        for k_, v_ in pc.items():
+            cov[k_] = cov.get(k_, 0) + v_
+    cov["candidates"] = []
     if not only:
         native_traces(V, cov)
     c = V.counts()
